@@ -1,5 +1,5 @@
 (* U_Auth.v — correspondence units for mpgameserver/auth.py (ids 1900-1999).
-   The oracles (sha256, base64, scrypt) are instantiated by finite answer tables sent with the
+   The oracles (sha256, base64 DEcoding, scrypt) are instantiated by finite answer tables sent with the
    request: the harness asks the MODEL which queries it makes (auth_split, auth_prepare) and
    answers them with the real libraries.  A query missing from a table yields the marker
    bytes "MISS" / Err ERecursion, which no real library answer equals, so an answer that matters
@@ -7,7 +7,7 @@
    Wire shapes: pyarg = [0; bytes] bytes | [1; [0; utf8]] str | [1; [1; code]] str whose encode
    raises | [2] other;  result tables = list of [key; [0; bytes] | [1; code]];
    plain tables = list of [key; bytes];  kdf key = [salt; length; N; r; p; key_material]. *)
-From Model Require Import Base Auth.
+From Model Require Import Base Base64 Auth.
 Open Scope Z_scope.
 
 Definition err_of_code (c : Z) : err :=
@@ -71,10 +71,10 @@ Definition u_auth_verify (v : V) : V :=
   vres vbool (verify_password (o_plain (vnth v 2)) (o_res (vnth v 3)) (o_kdf (vnth v 4))
                 (d_pyarg (vnth v 0)) (d_pyarg (vnth v 1))).
 
-(* UNIT 1904 auth_hash : [password; salt (os.urandom answer); sha table; b64encode table; kdf table]
-   -> result bytes (the hash string, ASCII) *)
+(* UNIT 1904 auth_hash : [password; salt (os.urandom answer); sha table; kdf table]
+   -> result bytes (the hash string, ASCII; the base64 encoding is the model's own) *)
 Definition u_auth_hash (v : V) : V :=
-  vres VB (hash_password (o_plain (vnth v 2)) (o_plain (vnth v 3)) (o_kdf (vnth v 4))
+  vres VB (hash_password (o_plain (vnth v 2)) (o_kdf (vnth v 3))
              (d_pyarg (vnth v 0)) (as_bytes (vnth v 1))).
 
 (* UNIT 1905 auth_consts : [] -> [N; r; p; SALT_LENGTH; DIGEST_LENGTH; packed parameter bytes] *)
@@ -87,6 +87,13 @@ Definition u_auth_unpack (v : V) : V :=
   vres (fun k => VL [VI (k_N k); VI (k_r k); VI (k_p k); VI (k_sl k); VI (k_len k)])
        (unpack_params (as_bytes (vnth v 0))).
 
+(* UNIT 1907 auth_b64encode : [bytes] -> bytes (base64.b64encode) *)
+Definition u_auth_b64encode (v : V) : V := VB (b64e (as_bytes (vnth v 0))).
+
+(* UNIT 1908 auth_b64strict : [bytes] -> result bytes (the reference decoder of Model/Base64.v, compared with
+   base64.b64decode(validate=True) on canonical-length inputs; it is only a consistency witness) *)
+Definition u_auth_b64strict (v : V) : V := vres VB (b64d_strict (as_bytes (vnth v 0))).
+
 Definition dispatch_auth (u : Z) (v : V) : option V :=
   match u with
   | 1901 => Some (u_auth_split v)
@@ -95,5 +102,7 @@ Definition dispatch_auth (u : Z) (v : V) : option V :=
   | 1904 => Some (u_auth_hash v)
   | 1905 => Some (u_auth_consts v)
   | 1906 => Some (u_auth_unpack v)
+  | 1907 => Some (u_auth_b64encode v)
+  | 1908 => Some (u_auth_b64strict v)
   | _ => None
   end.
